@@ -98,6 +98,19 @@ def run(ctx):
                       "C19.4", "reload_task:load-before-lock", "the load is started (and awaited) before write()",
                       "write() can run before the load", f.loc(lb))
 
+    # the reload reads the same four configuration sources, in the same argument positions, as the start-up load
+    def load_args(root):
+        out = []
+        for f_ in prog.family(root):
+            r_ = A.Resolver(f_)
+            for b_, t_ in A.call_blocks(f_, A.name_is(LOAD)):
+                out.append([A.last_field(A.peel(x)) for x in r_.call_expr(t_, b_)[2]])
+        return out
+    la_main, la_reload = load_args("resolved::main"), load_args("resolved::reload_task")
+    ctx.check(len(la_main) == 1 and len(la_reload) == 1 and la_main[0] == la_reload[0] and None not in la_main[0] and len(set(la_main[0])) == len(la_main[0]),
+              "C19.4", "reload_task:same-sources", "reload passes the same configuration fields, in the same positions, as start-up",
+              "start-up loads %s, reload loads %s" % (la_main, la_reload), prog.fn("resolved::reload_task").loc())
+
     # ---------------------------------------------------------------- C19.5
     readers = _rwlock_calls(prog, ("::read", "::try_read", "::blocking_read"))
     ctx.floor("C19.5", "read acquisitions of RwLock<Zones>", len(readers), 1, exact=True)
